@@ -16,16 +16,17 @@
 (* to the mean delta (zero when no example was seen).  Clients are taken   *)
 (* in an arbitrary order.  Serves C01, C12 (FedProx), C10.                 *)
 (* Toggles: WeightByExamples, FreshClientOpt, RoundParams (clients start   *)
-(* from the round's params), ZeroGuard, CarryServerOpt, ProxOnRound.       *)
+(* from the round's params), ZeroGuard, CarryServerOpt, ProxOnRound,       *)
+(* AdvanceKey (a fresh key at every local step).                           *)
 (***************************************************************************)
 EXTENDS Rationals, FiniteSets, TLC
 
 CONSTANTS Instances,   \* the set of instances the model checker starts from (records, see below)
-          WeightByExamples, FreshClientOpt, RoundParams, ZeroGuard, CarryServerOpt, ProxOnRound
+          WeightByExamples, FreshClientOpt, RoundParams, ZeroGuard, CarryServerOpt, ProxOnRound, AdvanceKey
 
 VARIABLES inst,                           \* the instance (never changes)
           round, params, sstate,          \* server: round number, params, optimizer state (momentum trace)
-          pending,                        \* clients of this round's cohort not yet trained
+          pending,                        \* POSITIONS of this round's cohort not yet trained (a client may be listed twice)
           cur, cparams, cstate, pos,      \* the client being trained: params, optimizer state, next batch
           acc, nsum, diag,                \* running weighted sum of deltas, example count, diagnostics entries
           lastc,                          \* client optimizer state left over by the previous client (deviation only)
@@ -39,8 +40,14 @@ vars == <<inst, round, params, sstate, pending, cur, cparams, cstate, pos, acc, 
              copt    : [kind |-> "sgd" | "mom", lr |-> rational, beta |-> rational]
              sopt    : same
              mu      : rational (FedProx weight, <<0,1>> for FedAvg)
+             noise   : round -> client -> sequence of integers, one per local step: the loss may use its random
+                       key; the per-example loss is then 1/2 (w_l - x_l)^2 + w_l * eta(key) with an integer eta,
+                       and noise[r][c][i] is eta of the key client c uses at its i-th step of round r (the
+                       client's own key of that round is split once per step; every step draws with a fresh
+                       descendant).  All zeros when the loss ignores its key.
              rounds  : number of rounds
-             cohorts : sequence (per round) of sequences of client indices ]                                  *)
+             cohorts : sequence (per round) of sequences of client indices; the same client may occur more
+                       than once in a cohort (sampling with replacement): it then counts once per occurrence ]  *)
 Leaves == 1..Len(inst.init)
 NClients == Len(inst.data)
 VZero == [l \in Leaves |-> RZero]
@@ -50,8 +57,9 @@ VScale(a, s) == [l \in Leaves |-> RMul(a[l], s)]
 
 
 Cohort(r) == {inst.cohorts[r][i] : i \in 1..Len(inst.cohorts[r])}
+CohortPos(r) == 1..Len(inst.cohorts[r])
 Start == /\ round = 1 /\ params = inst.init /\ sstate = VZero
-        /\ pending = Cohort(1) /\ cur = 0 /\ cparams = VZero /\ cstate = VZero /\ pos = 0
+        /\ pending = CohortPos(1) /\ cur = 0 /\ cparams = VZero /\ cstate = VZero /\ pos = 0
         /\ acc = VZero /\ nsum = 0 /\ diag = {} /\ lastc = VZero /\ prevparams = inst.init /\ hist = <<>>
 
 Init == inst \in Instances /\ Start
@@ -61,22 +69,25 @@ OptApply(opt, g, s, p) ==
   IF opt.kind = "sgd" THEN [p |-> VSub(p, VScale(g, opt.lr)), s |-> s]
   ELSE LET t == VAdd(g, VScale(s, opt.beta)) IN [p |-> VSub(p, VScale(t, opt.lr)), s |-> t]
 
-\* mean over the batch of (w - x), leaf by leaf, plus the proximal term mu (w - w_round)
+\* mean over the batch of (w - x), leaf by leaf, plus the key-dependent term of step i, plus the proximal term
+\* mu (w - w_round).  Deviation ~AdvanceKey: the client's key is not advanced, every step draws with the first key.
 RECURSIVE SumX(_, _, _)
 SumX(c, batch, l) == IF batch = <<>> THEN 0 ELSE inst.data[c][Head(batch)][l] + SumX(c, Tail(batch), l)
-Grad(c, batch, w, anchor) ==
-  [l \in Leaves |-> RAdd(RSub(w[l], Norm(SumX(c, batch, l), Len(batch))),
-                         RMul(inst.mu, RSub(w[l], anchor[l])))]
+NoiseAt(c, i) == R(inst.noise[round][c][IF AdvanceKey THEN i ELSE 1])
+Grad(c, i, w, anchor) ==
+  LET batch == inst.stream[c][i]
+  IN [l \in Leaves |-> RAdd(RAdd(RSub(w[l], Norm(SumX(c, batch, l), Len(batch))), NoiseAt(c, i)),
+                            RMul(inst.mu, RSub(w[l], anchor[l])))]
 
 \* client_init: the round's server params, a fresh client optimizer state
-StartClient(c) == /\ cur = 0 /\ c \in pending
-                  /\ cur' = c /\ pos' = 1
+StartClient(i) == /\ cur = 0 /\ i \in pending
+                  /\ cur' = inst.cohorts[round][i] /\ pos' = 1 /\ pending' = pending \ {i}
                   /\ cparams' = (IF RoundParams THEN params ELSE prevparams)
                   /\ cstate' = (IF FreshClientOpt THEN VZero ELSE lastc)
-                  /\ UNCHANGED <<inst, round, params, sstate, pending, acc, nsum, diag, lastc, prevparams, hist>>
+                  /\ UNCHANGED <<inst, round, params, sstate, acc, nsum, diag, lastc, prevparams, hist>>
 \* client_step: one optimizer step on the next batch of the client's stream
 ClientStep == /\ cur # 0 /\ pos <= Len(inst.stream[cur])
-              /\ LET g == Grad(cur, inst.stream[cur][pos], cparams, IF ProxOnRound THEN params ELSE inst.init)
+              /\ LET g == Grad(cur, pos, cparams, IF ProxOnRound THEN params ELSE inst.init)
                      o == OptApply(inst.copt, g, cstate, cparams)
                  IN cparams' = o.p /\ cstate' = o.s
               /\ pos' = pos + 1
@@ -86,8 +97,8 @@ FinishClient == /\ cur # 0 /\ pos > Len(inst.stream[cur])
                 /\ LET n == IF WeightByExamples THEN Len(inst.data[cur]) ELSE 1
                        delta == VSub(params, cparams)
                    IN acc' = VAdd(acc, VScale(delta, R(n))) /\ nsum' = nsum + n
-                /\ diag' = diag \cup {cur} /\ pending' = pending \ {cur} /\ lastc' = cstate /\ cur' = 0
-                /\ UNCHANGED <<inst, round, params, sstate, cparams, cstate, pos, prevparams, hist>>
+                /\ diag' = diag \cup {cur} /\ lastc' = cstate /\ cur' = 0
+                /\ UNCHANGED <<inst, round, params, sstate, pending, cparams, cstate, pos, prevparams, hist>>
 \* server_update: the server optimizer applied to the mean delta (zero when no example was seen)
 NaNVec == [l \in Leaves |-> <<0, 0>>]       \* 0/0
 ServerUpdate == /\ cur = 0 /\ pending = {} /\ round <= inst.rounds
@@ -99,28 +110,35 @@ ServerUpdate == /\ cur = 0 /\ pending = {} /\ round <= inst.rounds
                                o == OptApply(inst.sopt, mean, IF CarryServerOpt THEN sstate ELSE VZero, params)
                            IN /\ params' = o.p /\ sstate' = o.s /\ hist' = Append(hist, [p |-> o.p, diag |-> diag])
                         /\ round' = round + 1
-                        /\ pending' = (IF round + 1 <= inst.rounds THEN Cohort(round + 1) ELSE {})
+                        /\ pending' = (IF round + 1 <= inst.rounds THEN CohortPos(round + 1) ELSE {})
                 /\ prevparams' = params
                 /\ acc' = VZero /\ nsum' = 0 /\ diag' = {}
                 /\ UNCHANGED <<inst, cur, cparams, cstate, pos, lastc>>
 
-Next == (\E c \in 1..NClients : StartClient(c)) \/ ClientStep \/ FinishClient \/ ServerUpdate
+Next == (\E i \in pending : StartClient(i)) \/ ClientStep \/ FinishClient \/ ServerUpdate
 Spec == Init /\ [][Next]_vars
 
 (* ---- the mathematical definition of a round, stated without accumulators or order ---- *)
-RECURSIVE TrainFrom(_, _, _, _, _)
-TrainFrom(c, i, w, s, anchor) ==
+RECURSIVE TrainFrom(_, _, _, _, _, _)
+TrainFrom(r, c, i, w, s, anchor) ==
   IF i > Len(inst.stream[c]) THEN w
-  ELSE LET o == OptApply(inst.copt, Grad(c, inst.stream[c][i], w, anchor), s, w) IN TrainFrom(c, i + 1, o.p, o.s, anchor)
-Delta(c, w) == VSub(w, TrainFrom(c, 1, w, VZero, w))
-RECURSIVE WeightedSum(_, _)
-WeightedSum(S, w) == IF S = {} THEN VZero
-                     ELSE LET c == CHOOSE x \in S : TRUE IN VAdd(VScale(Delta(c, w), R(Len(inst.data[c]))), WeightedSum(S \ {c}, w))
-RECURSIVE Examples(_)
-Examples(S) == IF S = {} THEN 0 ELSE LET c == CHOOSE x \in S : TRUE IN Len(inst.data[c]) + Examples(S \ {c})
-DefRound(r, w, s) == LET S == Cohort(r)
-                         n == Examples(S)
-                         mean == IF n > 0 THEN VScale(WeightedSum(S, w), <<1, n>>) ELSE VZero
+  ELSE LET batch == inst.stream[c][i]
+           g == [l \in Leaves |-> RAdd(RAdd(RSub(w[l], Norm(SumX(c, batch, l), Len(batch))), R(inst.noise[r][c][i])),
+                                       RMul(inst.mu, RSub(w[l], anchor[l])))]
+           o == OptApply(inst.copt, g, s, w)
+       IN TrainFrom(r, c, i + 1, o.p, o.s, anchor)
+Delta(r, c, w) == VSub(w, TrainFrom(r, c, 1, w, VZero, w))
+\* sums run over the POSITIONS of the cohort (a client listed twice counts twice)
+RECURSIVE WeightedSum(_, _, _)
+WeightedSum(P, r, w) == IF P = {} THEN VZero
+                        ELSE LET i == CHOOSE x \in P : TRUE
+                                 c == inst.cohorts[r][i]
+                             IN VAdd(VScale(Delta(r, c, w), R(Len(inst.data[c]))), WeightedSum(P \ {i}, r, w))
+RECURSIVE ExamplesAt(_, _)
+ExamplesAt(P, r) == IF P = {} THEN 0 ELSE LET i == CHOOSE x \in P : TRUE IN Len(inst.data[inst.cohorts[r][i]]) + ExamplesAt(P \ {i}, r)
+Examples(r) == ExamplesAt(CohortPos(r), r)
+DefRound(r, w, s) == LET n == Examples(r)
+                         mean == IF n > 0 THEN VScale(WeightedSum(CohortPos(r), r, w), <<1, n>>) ELSE VZero
                      IN OptApply(inst.sopt, mean, s, w)
 RECURSIVE DefAfter(_)
 DefAfter(r) == IF r = 0 THEN [p |-> inst.init, s |-> VZero] ELSE LET b == DefAfter(r - 1) IN DefRound(r, b.p, b.s)
@@ -130,7 +148,7 @@ EqualsDefinition == \A r \in 1..Len(hist) : (hist[r].p # NaNVec) => hist[r].p = 
 OneDiagPerClient == \A r \in 1..Len(hist) : hist[r].diag = Cohort(r)
 \* a round that saw no example leaves the parameters unchanged under plain SGD
 EmptyRoundFixpoint == \A r \in 1..Len(hist) :
-                         (Examples(Cohort(r)) = 0 /\ inst.sopt.kind = "sgd") =>
+                         (Examples(r) = 0 /\ inst.sopt.kind = "sgd") =>
                             hist[r].p = (IF r = 1 THEN inst.init ELSE hist[r - 1].p)
 NoNaN == \A r \in 1..Len(hist) : \A l \in Leaves : hist[r].p[l][2] # 0
 Finished == round > inst.rounds
